@@ -1,28 +1,130 @@
 package zzverif
 
+func hasSuffix(s, suf string) bool { return len(s) >= len(suf) && s[len(s)-len(suf):] == suf }
+func hasPrefix(s, pre string) bool { return len(s) >= len(pre) && s[:len(pre)] == pre }
+
+func probeSum(o *SeqOutcome, pre, suf string) (n int, kinds int) {
+	for k, v := range o.Probes {
+		if v > 0 && hasPrefix(k, pre) && hasSuffix(k, suf) {
+			n += v
+			kinds++
+		}
+	}
+	return
+}
+
+func w(base map[string]int, over map[string]int) map[string]int {
+	out := map[string]int{}
+	for k, v := range base {
+		out[k] = v
+	}
+	for k, v := range over {
+		out[k] = v
+	}
+	return out
+}
+
 func init() {
 	Props["C01"] = &PropSpec{ID: "C01", Engines: []Engine{&seqEngine{
 		profile: Profile{Prop: "C01", Executor: []string{"sync"}},
 		nontrivial: func(o *SeqOutcome) bool {
-			abs, live, gone := false, false, false
-			for k, n := range o.Probes {
-				if n == 0 {
-					continue
-				}
-				switch {
-				case len(k) > 3 && k[:3] == "op:" && hasSuffix(k, "@absent"):
-					abs = true
-				case len(k) > 3 && k[:3] == "op:" && hasSuffix(k, "@live"):
-					live = true
-				case len(k) > 3 && k[:3] == "op:" && hasSuffix(k, "@expired-unswept"):
-					gone = true
-				case k == "auto-overflow" || k == "auto-expiration":
-					gone = true
-				}
-			}
-			return abs && live && gone
+			a, _ := probeSum(o, "op:", "@absent")
+			l, _ := probeSum(o, "op:", "@live")
+			g, _ := probeSum(o, "op:", "@expired-unswept")
+			return a > 0 && l > 0 && (g > 0 || o.Probes["auto-overflow"] > 0 || o.Probes["auto-expiration"] > 0)
+		},
+	}}}
+	Props["C03"] = &PropSpec{ID: "C03", Engines: []Engine{
+		&seqEngine{
+			profile: Profile{Prop: "C03", Executor: []string{"sync"}, ForceExp: true,
+				OpW: w(defaultOpW, map[string]int{"advance": 25, "all": 2, "keys": 2, "values": 2, "hottest": 2, "coldest": 2, "setexpires": 6, "setrefreshable": 4, "cleanup": 1})},
+			nontrivial: func(o *SeqOutcome) bool {
+				_, kinds := probeSum(o, "op:", "@expired-unswept")
+				return kinds >= 3
+			},
+		},
+		&seqEngine{
+			profile:  Profile{Prop: "C03", Executor: []string{"sync"}, ForceExp: true, MinOps: 5, MaxOps: 60, OpW: w(defaultOpW, map[string]int{"advance": 20, "cleanup": 1})},
+			saveLoad: true,
+			nontrivial: func(o *SeqOutcome) bool {
+				return o.Probes["saveload"] > 0
+			},
+		},
+	}}
+	Props["C07"] = &PropSpec{ID: "C07", Engines: []Engine{&seqEngine{
+		profile: Profile{Prop: "C07", Executor: []string{"sync"},
+			OpW: w(defaultOpW, map[string]int{"set": 25, "setmax": 4, "compute": 8, "cleanup": 6, "advance": 10})},
+		nontrivial: func(o *SeqOutcome) bool {
+			return o.Probes["auto-overflow"] > 0 || o.Probes["auto-expiration"] > 0
+		},
+	}}}
+	Props["C10"] = &PropSpec{ID: "C10", Engines: []Engine{&seqEngine{
+		profile: Profile{Prop: "C10", Executor: []string{"sync"},
+			OpW: w(defaultOpW, map[string]int{"load": 25, "bulkget": 25, "set": 8, "invalidate": 6, "advance": 8})},
+		nontrivial: func(o *SeqOutcome) bool {
+			n, kinds := probeSum(o, "load:", "")
+			return n > 0 && kinds >= 2 && (o.Probes["bulk-omit"] > 0 || o.Probes["bulk-extra"] > 0 || o.Probes["bulk-duplicate-key"] > 0)
+		},
+	}}}
+	Props["C11"] = &PropSpec{ID: "C11", Engines: []Engine{&seqEngine{
+		profile: Profile{Prop: "C11", Executor: []string{"sync"}, ForceRef: true,
+			OpW: w(defaultOpW, map[string]int{"load": 25, "bulkget": 12, "refresh": 10, "bulkrefresh": 8, "advance": 20, "set": 10, "setrefreshable": 5})},
+		nontrivial: func(o *SeqOutcome) bool {
+			n, _ := probeSum(o, "reload:", "")
+			r, _ := probeSum(o, "refresh-", "")
+			return n > 0 || (r > 0 && o.Probes["bulk-reload"] > 0)
+		},
+	}}}
+	Props["C12"] = &PropSpec{ID: "C12", Engines: []Engine{
+		&seqEngine{
+			profile: Profile{Prop: "C12", Executor: []string{"sync"}, ForceExp: true, ExtremeClk: true,
+				OpW: w(defaultOpW, map[string]int{"setexpires": 8, "setrefreshable": 6, "advance": 18, "getentry": 6, "getquiet": 6})},
+			nontrivial: func(o *SeqOutcome) bool {
+				l, _ := probeSum(o, "op:", "@live")
+				return l >= 5
+			},
+		},
+		&seqEngine{
+			profile: Profile{Prop: "C12", Executor: []string{"sync"}, ForceExp: true, ForceRef: true,
+				OpW: w(defaultOpW, map[string]int{"setexpires": 8, "setrefreshable": 8, "advance": 18, "load": 10})},
+			nontrivial: func(o *SeqOutcome) bool {
+				l, _ := probeSum(o, "op:", "@live")
+				return l >= 5
+			},
+		},
+	}}
+	Props["C13"] = &PropSpec{ID: "C13", Engines: []Engine{&seqEngine{
+		profile: Profile{Prop: "C13", Executor: []string{"sync"}, ForceExp: true, BigTTL: true,
+			OpW: map[string]int{"set": 30, "setifabsent": 5, "get": 8, "compute": 4, "invalidate": 5, "setexpires": 6, "cleanup": 14, "advance": 22, "esize": 4,
+				"getentry": 1, "getquiet": 1, "computeifabsent": 1, "computeifpresent": 1, "invalidateall": 1, "setrefreshable": 0, "load": 2, "bulkget": 1, "refresh": 0, "bulkrefresh": 0,
+				"all": 1, "keys": 0, "values": 0, "hottest": 0, "coldest": 0, "setmax": 0, "getmax": 0, "wsize": 0, "stats": 0}},
+		nontrivial: func(o *SeqOutcome) bool {
+			return o.Probes["sweep-checks"] > 0 && o.Probes["auto-expiration"] > 0
+		},
+	}}}
+	Props["C19"] = &PropSpec{ID: "C19", Engines: []Engine{
+		&seqEngine{
+			profile:  Profile{Prop: "C19", Executor: []string{"sync"}, MinOps: 3, MaxOps: 80, OpW: w(defaultOpW, map[string]int{"set": 30, "advance": 8})},
+			saveLoad: true,
+			nontrivial: func(o *SeqOutcome) bool {
+				return o.Probes["saveload"] > 0
+			},
+		},
+		&seqEngine{
+			profile:  Profile{Prop: "C19", Executor: []string{"sync"}, ForceExp: true, ExtremeClk: true, MinOps: 3, MaxOps: 40, OpW: w(defaultOpW, map[string]int{"set": 30, "setexpires": 10, "advance": 8})},
+			saveLoad: true,
+			nontrivial: func(o *SeqOutcome) bool {
+				return o.Probes["saveload"] > 0
+			},
+		},
+	}}
+	Props["C20"] = &PropSpec{ID: "C20", Engines: []Engine{&seqEngine{
+		profile: Profile{Prop: "C20", Executor: []string{"sync"}, Stats: true, OpW: w(defaultOpW, map[string]int{"stats": 8, "load": 12, "bulkget": 8})},
+		nontrivial: func(o *SeqOutcome) bool {
+			n, _ := probeSum(o, "load:", "")
+			l, _ := probeSum(o, "op:get", "@live")
+			a, _ := probeSum(o, "op:get", "@absent")
+			return n > 0 && l > 0 && a > 0
 		},
 	}}}
 }
-
-func hasSuffix(s, suf string) bool { return len(s) >= len(suf) && s[len(s)-len(suf):] == suf }
